@@ -236,3 +236,11 @@ Definition cfg_of_row {A} (opts:list A) (dflt:A) (row:list nat) : list A * nat :
 Definition showPoserS (opts:list setup_desc) (s:string) : string := showPoser (map (cfg_of_row opts []) (rows_of s)).
 Definition showPoserHS (d:DataId) (f:Fs) (hs:string) (s:string) : string :=
   showPoserH d f (map (cfg_of_row (map decode_ops (rows_of hs)) []) (rows_of s)).
+(* a PoSER row with an explicit name list (names may repeat): k, then k indices into the option table, then the names *)
+Definition cfg_names_of_row {A} (opts:list A) (dflt:A) (row:list nat) : list A * list name :=
+  match row with
+  | [] => ([], [])
+  | k :: t => (map (fun i => nth i opts dflt) (firstn k t), skipn k t)
+  end.
+Definition showPoserNS (opts:list setup_desc) (s:string) : string :=
+  showL (fun c => showON (poser_check (fst c) (snd c))) " " (map (cfg_names_of_row opts []) (rows_of s)).
